@@ -1012,6 +1012,17 @@ type c15Inner struct {
 	Extra map[string]string `json:"extra,omitempty" xml:"-" yaml:"extra,omitempty"`
 }
 
+// c15HDoc: a document whose element names are those of HTML void / auto-closing elements (plain names to XML)
+type c15HDoc struct {
+	XMLName xml.Name `json:"-" xml:"resource" yaml:"-"`
+	Link    string   `json:"link" xml:"link" yaml:"link"`
+	Name    string   `json:"name" xml:"name" yaml:"name"`
+	Params  []string `json:"param" xml:"param" yaml:"param"`
+	Meta    string   `json:"meta" xml:"meta" yaml:"meta"`
+	Br      string   `json:"br" xml:"br" yaml:"br"`
+	Img     string   `json:"img" xml:"img" yaml:"img"`
+}
+
 type c15Wrap struct {
 	V interface{}            `json:"v"`
 	M map[string]interface{} `json:"m"`
@@ -1291,6 +1302,9 @@ func c15ExecJ(in []string) []string {
 		t := c15JTree(r, codec, 3)
 		var d interface{}
 		orig, dest = t, &d
+	case "hdoc":
+		orig = &c15HDoc{Link: "https://x.test/a?b=1&c=2", Name: "n " + proto.N(r.Intn(1000)), Params: []string{"p1", "p 2", "<p3>"}, Meta: "m", Br: "b", Img: "i.png"}
+		dest = &c15HDoc{}
 	case "wrap", "nmap":
 		// generic values in untyped positions of a typed destination (a struct with interface{} / map / slice
 		// fields; a named map type): numbers there must come back as they were sent, like everywhere else
@@ -1419,6 +1433,10 @@ func c15Content(r *proto.Rng, tier string) string {
 	}
 	if n > 0 && r.Chance(1, 5) {
 		copy(b, "\xff\xfe\x00\xc3\x28")
+	}
+	if r.Chance(1, 12) {
+		// content that opens with (or is) a byte order mark, ends in line breaks or blanks: bytes like any other
+		return r.Pick("\xef\xbb\xbf", "\xef\xbb\xbftext", "\xef\xbb", "\xfe\xff", "\xff\xfe", " padded ", "\n\n", "\r\n", "\x00") + string(b)
 	}
 	return string(b)
 }
@@ -1703,6 +1721,9 @@ func c15Gen(r *proto.Rng, n int, tier string, emit func(in ...string)) {
 		}
 		if codec == "j" && r.Chance(1, 3) {
 			shape = r.Pick("wrap", "nmap")
+		}
+		if r.Chance(1, 6) {
+			shape = "hdoc"
 		}
 		if r.Chance(1, 4) {
 			shape = "pdoc"
